@@ -87,16 +87,22 @@ def eval_case(case):
         fails.append({"key": f"{key}@{d['name'].split('-')[0]}", "what": f"{d['name']} P={case['Pname']}: {what}"})
 
     ekfs = {}
-    for cse in (True, False):
+    # a third filter object sees the same points in another order: the degenerate ones (all-zero input, dt = 0, single zeros) FIRST -
+    # whatever a filter learns on its first call must not shape its later answers
+    for cse in (True, False, "degenerate-first"):
         try:
-            ekfs[cse] = pyimpl.py_ekf(dict(d, sensors=[], snoise=[]), {"cse": cse})
+            ekfs[cse] = pyimpl.py_ekf(dict(d, sensors=[], snoise=[]), {"cse": cse is not False})
         except Exception as e:
             fail(f"compile-refused:{type(e).__name__}", f"refused by python.compile_ekf (cse={cse}): {e!r}"[:300])
             return {"n": 1, "fails": fails}
     n = skipped = 0
     Pm = R.M(case["P"])
     Mn = ref.Mn()
-    for env in space.grid_points(ref.st + ref.ct, case["per_symbol"], case["seed"], case["dts"]):
+    pts = list(space.grid_points(ref.st + ref.ct, case["per_symbol"], case["seed"], case["dts"]))
+    degfirst = sorted(range(len(pts)), key=lambda i_: (-sum(1 for v_ in pts[i_].values() if v_ == 0.0), i_))
+    for pi, env0 in enumerate(pts):
+      for which in ("fwd", "deg"):
+        env = env0 if which == "fwd" else pts[degfirst[pi]]
         full = ref.env(env)
         try:
             fx, Pn = ref.predict(full, Pm)
@@ -107,6 +113,8 @@ def eval_case(case):
         if case.get("abs_scale"):
             scale = float(max(R.maxabs(Pn), R.maxabs(Pm)))
         for cse, ekf in ekfs.items():
+            if (cse == "degenerate-first") != (which == "deg"):
+                continue
             state = ekf.State(**{s: env[s] for s in ref.st})
             control = ekf.Control(**{s: env[s] for s in ref.ct})
             cov = ekf.Covariance.from_data(np.array(case["P"], dtype=float))
@@ -155,6 +163,8 @@ def eval_case(case):
                     break
         if fails:
             break
+      if fails:
+          break
     seen, uniq = set(), []
     for f in fails:
         if f["key"] not in seen:
